@@ -724,8 +724,8 @@ pub fn main() {
             file_list,
             names,
         } => {
-            let input_files = get_input_list(file_list, names);
-            let input_names: Vec<&str> = input_files.iter().map(|t| &*t.0).collect();
+            let input_files = get_name_list(file_list, names);
+            let input_names: Vec<&str> = input_files.iter().map(|t| t.as_str()).collect();
             let output_file = output.clone().unwrap_or(skf_file.to_string());
             log::info!("Loading skf file");
             if let Ok(mut ska_array) = MergeSkaArray::<u64>::load(skf_file) {
